@@ -55,6 +55,12 @@ def build_pool():
     P.append(Struct('SL%d' % k, [LBuf(u16, 200, 1, False, 'c')])); k += 1
     P.append(Struct('SL%d' % k, [LBuf(u8, 300, 2, False, 'std')])); k += 1
     P.append(Struct('SL%d' % k, [LBuf(SA, 2, 4, False, 'std')])); k += 1
+    # logical buffers of non-integral elements with room for >= 128 elements, narrow / signed size members
+    for (sw, ss) in [(1, False), (2, True), (4, True), (8, True), (2, False)]:
+        P.append(Struct('SL%d' % k, [LBuf(f32, 200, sw, ss, 'c' if k % 2 else 'std')])); k += 1
+    P.append(Struct('SL%d' % k, [LBuf(s8, 130, 1, False, 'std'), u8])); k += 1
+    P.append(Struct('SL%d' % k, [LBuf(f64, 3, 1, False, 'c')])); k += 1
+    P.append(Struct('SL%d' % k, [LBuf(s8, 2, 2, True, 'c')])); k += 1
     # value wrappers
     P += [Wrap('WU32', u32), Wrap('WStr', s8), Wrap('WLb', LBuf(u8, 8, 4, False, 'c')), Wrap('WVec', Vec(i16))]
     # tables
@@ -62,6 +68,8 @@ def build_pool():
     TB = Table('TB', 0x1122334455667788, [(0, True, u32), (5, False, s8), (127, True, Vec(u8)), (128, True, SA)])
     TC = Table('TC', 0xfedcba9876543210, [(1 << 32, True, i64), (1 << 63, True, u16)])
     TO = Table('TOptEntry', 3, [(0, True, Opt(u8))])
+    TW = Table('TW', 11, [(0, True, ws), (1, True, s16), (2, True, Vec(u32)), (3, True, Arr(u16, 3)), (4, True, f64)])
+    P += [TW]
     TN = Table('TN', None, [(0, True, TA), (1, True, Vec(TA)), (2, True, u16)])
     TH = Table('TH', 7, [(0, True, hd), (1, True, u8), (2, True, Vec(hd))])
     P += [TA, TB, TC, TO, TN, TH, Vec(TA), Struct('STab', [u8, TA, u8]), Opt(TA)]
